@@ -19,9 +19,10 @@ func init() {
 			"(4) the begin hand-off in RegistryImpl.Begin is an unbuffered rendezvous whose timeout arm rolls the late transaction back; " +
 			"(5) the sweeper marks a transaction stale when age > ttl or idle > idle-ttl (both comparisons present, right operands, right polarity). " +
 			"Added after blind round 4: the lock pairing rule of C07 (every acquisition released or deferred before every reachable return), which covers TransactionImpl.mu on the early-return paths of the transaction's methods. " +
-			"Added after blind round 7: a connection's tracking entry is deleted only when its set is empty (or by the connection sweep itself).",
+			"Added after blind round 7: a connection's tracking entry is deleted only when its set is empty (or by the connection sweep itself). " +
+			"Added after blind round 8: the registry's ticker goroutine runs CleanupStaleTransactions on every tick.",
 		NotDecided: "timing (when the sweeper runs, the 10 s / 30 s constants), liveness for all call sequences, the begin goroutine's error returns that never reach the caller (reported as info).",
-		Rules:      []func(*Ctx, *Reporter){ruleTxFinishOnce, ruleTxRelease, ruleTxLockWriters, ruleTxOrphanRemoval, ruleTxBeginHandoff, ruleTxStale, ruleLockReleasedOnEveryExit, ruleConnTrackingDroppedOnlyWhenEmpty},
+		Rules:      []func(*Ctx, *Reporter){ruleTxFinishOnce, ruleTxRelease, ruleTxLockWriters, ruleTxOrphanRemoval, ruleTxBeginHandoff, ruleTxStale, ruleLockReleasedOnEveryExit, ruleConnTrackingDroppedOnlyWhenEmpty, ruleSweeperSweepsEveryTick},
 	})
 	register(&PropertyDef{
 		ID: "C04",
